@@ -223,6 +223,8 @@ class Path:
         out = []
         for k, v in self.order:
             kind, x = self.atoms[k]
+            if kind == 'O' and x.startswith('FAIL ') and not v:
+                continue            # "this allocation succeeded" is the normal case; only failures are named
             if kind == 'Z':
                 out.append('%s %s 0' % (x, '==' if v else '!='))
             else:
@@ -561,8 +563,7 @@ class Exec:
             inner = n.get('inner', [])
             raise _Return(self.rv(inner[0]) if inner else None)
         elif k == 'GotoStmt':
-            tgt = self.tu.decl_by_id.get(n.get('targetLabelDeclId'))
-            raise _Goto(tgt['name'] if tgt else n.get('targetLabelDeclId'))
+            raise _Goto(self.tu.labels.get(n.get('targetLabelDeclId'), n.get('targetLabelDeclId')))
         elif k == 'LabelStmt':
             for c in n.get('inner', []):
                 self.stmt(c)
@@ -650,7 +651,8 @@ class Exec:
         k = init.get('kind')
         if t.kind == 'array':
             if k == 'InitListExpr':
-                elems = init.get('inner', [])
+                # clang's JSON: a partially initialised array has no `inner`; `array_filler` = [filler, explicit elements...]
+                elems = init['array_filler'][1:] if 'array_filler' in init else init.get('inner', [])
                 if t.to.kind == 'int':
                     items = [self.conv_int(self.rv(e), t.to) for e in elems]
                     if t.n is None:
